@@ -13,7 +13,8 @@ SMALL = [b"0", b"1", b"2", b"3", b"10"]
 LEADZ = [b"00", b"01", b"010", b"007"]
 PRE_WORDS = [b"alpha", b"beta", b"rc", b"a", b"b", b"pre", b"Alpha", b"Beta", b"BETA", b"RC", b"Rc", b"x-y", b"dev", b"SNAPSHOT", b"b2", b"-", b"z", b"Z", b"A", b"1a", b"0a", b"2-beta", b"-x", b"--", b"7f3c2e1", b"a1", b"-a"]
 PRE_NUMS = [b"0", b"1", b"2", b"10", b"01", b"00", b"-1", b"+1", b"2147483647", b"2147483648", b"9223372036854775807",
-            b"9223372036854775808"]
+            b"9223372036854775808", b"18446744073709551616", b"18446744073709551617", b"36893488147419103233",
+            b"99999999999999999999", b"100000000000000000000"]
 BUILD = [b"build", b"001", b"sha.5114f85", b"b-1", b"0"]
 
 
@@ -188,8 +189,15 @@ def variants(rng, sysi, s):
     out = []
     head, sep, tail = s.partition(b"+")
     core, dash, pre = head.partition(b"-")
-    k = rng.randrange(6)
-    if k == 0:
+    k = rng.randrange(7)
+    if k == 6:
+        # the core extended by zero components and then a non-zero one (two different tails): equal
+        # prefixes of different lengths must still be told apart by a later component
+        z = rng.choice([b".0", b".0.0", b".00", b".0.0.0"])
+        for d in rng.sample([b"1", b"2", b"3", b"10"], 2):
+            out.append(core + z + b"." + d + dash + pre + sep + tail)
+        out.append(core + z + dash + pre + sep + tail)
+    elif k == 0:
         out.append(core + rng.choice([b".0", b".00", b".0.0"]) + dash + pre + sep + tail)
     elif k == 1:
         out.append(s + rng.choice([b".0", b".00", b"-0", b".1"]))
@@ -205,10 +213,10 @@ def variants(rng, sysi, s):
         if parts[i].isdigit():
             parts[i] = b"0" + parts[i]
         out.append(b".".join(parts) + dash + pre + sep + tail)
-    elif sysi in (0, 1, 2, 4, 5, 8):
+    elif k == 5 and sysi in (0, 1, 2, 4, 5, 8):
         out.append(head + b"+" + rng.choice([b"x", b"1", b"build.2"]))
         out.append(head)
-    elif sysi == 6:
+    elif k == 5 and sysi == 6:
         if sep:
             out.append(head + b"+" + tail + rng.choice([b".1", b".x", b".0"]))
             if b"." in tail:
